@@ -237,9 +237,44 @@ def r3(ctx):
                     why = "eof"
                     break
         ok_exits.add(why)
+    # capacity discipline: a read may never take more than the bytes still to be skipped, i.e. the scratch buffer's
+    # free capacity at every read_buf is <= bytes - (bytes read so far).  This is the premise of the two trusted
+    # panic sites of skip_bytes (C10.R1) and what keeps the next pipelined request out of the discard loop.
+    disc = skip_capacity_discipline(I, list(paths) + list(I.panic_paths))
+    for k, (ok, why, sp) in sorted(disc.items()):
+        rep.check(ok, "skip_bytes:read-capped:%s" % k, "free capacity <= bytes still to skip", "skip_bytes can read past the oversized body: at the %s read the scratch buffer has room for %s — bytes of the next pipelined request are swallowed (and the counter arithmetic then panics)" % (k, why), sp)
+    if not disc:
+        rep.bad("skip_bytes:read-capped:none", "cannot find the socket reads of skip_bytes", sb.loc())
     rep.sample({"skip_bytes Ok exits": sorted(ok_exits)})
     rep.check(ok_exits <= {"bytes==0", "counter==bytes", "eof"} and "counter==bytes" in ok_exits, "skip_bytes:ok-exits", "Ok only when nothing to skip, counter == requested, or EOF", "skip_bytes returns Ok on an exit that is neither 'requested count reached' nor EOF: %s" % sorted(ok_exits), sb.loc())
     return rep
+
+
+def skip_capacity_discipline(I, paths):
+    """{ordinal: (holds, description, loc)} over all evaluated paths of skip_bytes"""
+    out = {}
+    for p in paths:
+        total = 0
+        k = 0
+        for e in p.events:
+            if e.kind == "buf" and e.name == "read_buf":
+                k += 1
+                free = e.extra.get("free")
+                remaining = lin_add(P("bytes"), total, -1)
+                name = {1: "first", 2: "second"}.get(k, "%dth" % k)
+                if free is None or remaining is None:
+                    ok, why = False, "an unknown capacity"
+                else:
+                    d = I.decide_cmp(p.state, "Le", free, remaining, "usize")
+                    ok = d is True
+                    why = "%s bytes while only %s remain" % (short(free, 80), short(remaining, 80))
+                prev = out.get(name)
+                out[name] = (ok and (prev is None or prev[0]), why if not ok or prev is None else prev[1], loc_s(e.span))
+            elif e.kind == "await":
+                t = tform(e.args[0])
+                if isinstance(t, tuple) and t[0] == "call" and t[1].endswith("read_buf"):
+                    total = lin_add(total, ("field", ("as", e.result, "Ok"), "0"), 1)
+    return out
 
 
 def simplify_trunc(v):
